@@ -14,7 +14,8 @@ def run(chk, replay=None):
     nbulk = 1 if chk.tier == "quick" else 8
     proccheck.run(chk, "PropC02", {'failures': 5, 'mixed': 3, 'all_ok': 1}, 140, 3000, [101, 201, 202, 203], replay=replay,
                   extra_histories=lambda rng: procgen.gen_histories(rng, 1, {"bulkfail": 1}) +
-                  procgen.gen_histories(rng, nbulk - 1, {"bulk": 1, "bulkfail": 1}))
+                  procgen.gen_histories(rng, nbulk - 1, {"bulk": 1, "bulkfail": 1}) +
+                  procgen.gen_histories(rng, 3 if chk.tier == "quick" else 40, {"outage": 1}))
     statuscheck.run_stage(chk)
     # metric payloads: the attempt counter across MergeFailed / ApplyRules, below and above the table limit
     c07.run_table_cases(chk, c07.retry_cases(random.Random(chk.seed + 2)), "c02tab",
